@@ -746,7 +746,8 @@ PROPS["C20"] = dict(
          "plans) plus four race cases (rate 1 ns - 1 us, spinning receiver, instantaneous cancel). non-trivial = K1 case in which a producer existed and the scenario "
          "received or cancelled after the call, or a timed case cut short by cancellation / with values after cancellation / completed with count >= 2; distinct by tuple",
     stages=[corr_stage("C20K1", 1500, 6000, feature=feat_c20, seeds=2),
-            corr_stage("C20T", 1200, 5000, feature=feat_c20, seeds=2)],
+            corr_stage("C20T", 1200, 5000, feature=feat_c20, seeds=2),
+            corr_stage("C20EDGE", 24, 200, validate=False)],
 )
 
 # ---------------------------------------------------------------------------------------------------------------
